@@ -26,6 +26,7 @@ func c05(c *Ctx) {
 	r.Decides("a restricted reservation is reported fitting only through fitsReservation returning no reason; in fitsReservation every reserved, requested, non-ignored dimension reaches the comparison, and the non-negative clamp of the used amount comes after the preemptible credit")
 	r.Decides("IsMatchable is false for an allocate-once reservation that already has a pod; a pod is matched only if reservations are ignored for it or MatchOwners(pod) holds; default-mode pre-allocation requires MatchOwners")
 	r.Decides("UpdateReservation/UpdatePod re-derive every object-derived field (owner matchers, parse error, resource names, ...) on every path, so nothing of the previous version of the object survives an update")
+	r.Decides("whenever Allocatable, Allocated or Reserved of a ReservationInfo is assigned, the pre-calculated figures (Available, AllocatedResource, ...) are recomputed or copied before the function returns")
 	r.Decides("the cache maps are accessed only under cache.lock")
 	r.Declines("the quantity comparison itself and the sums over histories")
 
@@ -35,6 +36,7 @@ func c05(c *Ctx) {
 	c05fit(c)
 	c05match(c)
 	c05refresh(c)
+	c05derived(c)
 
 	r.Rule("LOCK: reservationCache.{reservationInfos,reservationsOnNode,matchableOnNode,allocatedOnNode,preAllocatablePodsOnNode} are read under lock and written under the write lock")
 	c.RunLock("LOCK", LockCfg{Pkg: resvPkg, Type: "reservationCache", Mutex: "lock",
@@ -574,4 +576,50 @@ func c05refresh(c *Ctx) {
 			r.Check(len(reach.Returns()) == 0, "COMPLETE", fkey(fn)+"/assigns/"+f, c.Pos(fn.Pos()), f+" is assigned on every path", "the update can return without assigning "+f+": the value derived from the previous version of the object stays in effect (for OwnerMatchers: pods keep matching a reservation that no longer declares them as owners)")
 		}
 	}
+}
+
+// c05derived: the pre-calculated figures follow their inputs.
+func c05derived(c *Ctx) {
+	r := c.R
+	r.Rule("TYPESTATE(derived figures): in package frameworkext, after every store to ReservationInfo.{Allocatable,Allocated,Reserved} no return is reachable without RefreshPreCalculated() or an explicit store of Available on the same object; objects still under construction in the same function are exempt because a nil Available is computed on first use by GetAvailable (fitsReservation and the scoring read Available / AllocatedResource, not the inputs)")
+	inputs := map[string]bool{"Allocatable": true, "Allocated": true, "Reserved": true}
+	n := 0
+	for _, fn := range c.PkgFuncs("pkg/scheduler/frameworkext") {
+		var last *ssa.Store
+		var base ssa.Value
+		cnt := 0
+		for _, b := range fn.Blocks {
+			for _, in := range b.Instrs {
+				st, ok := in.(*ssa.Store)
+				if !ok {
+					continue
+				}
+				owner, f, bs, ok := an.FieldOf(st.Addr)
+				if !ok || !strings.HasSuffix(owner, "frameworkext.ReservationInfo") || !inputs[f] {
+					continue
+				}
+				if al, isAlloc := bs.(*ssa.Alloc); isAlloc && al.Heap {
+					continue // object under construction: Available is still nil and GetAvailable computes it on first use
+				}
+				cnt++
+				last, base = st, bs
+				target := st
+				reach := an.Explore(fn, an.After(target), nil, func(x ssa.Instruction) bool {
+					if cl, ok := x.(ssa.CallInstruction); ok && an.ShortCallee(cl.Common()) == "RefreshPreCalculated" {
+						return true
+					}
+					if s2, ok := x.(*ssa.Store); ok {
+						if o2, f2, b2, ok := an.FieldOf(s2.Addr); ok && o2 == owner && f2 == "Available" && an.Path(b2) == an.Path(bs) {
+							return true
+						}
+					}
+					return false
+				})
+				n++
+				r.Check(len(reach.Returns()) == 0, "TYPESTATE", sprintf("%s/%s#%d=>refresh", fkey(fn), f, cnt), c.InstrPos(st), "derived figures are refreshed before returning", "after ReservationInfo."+f+" was assigned a return is reachable without RefreshPreCalculated (or a copy of Available): Available / AllocatedResource keep describing the previous amounts, so a reservation looks emptier or fuller than it is")
+			}
+		}
+		_, _ = last, base
+	}
+	r.Floor("TYPESTATE", "stores to the inputs of the pre-calculated figures", n, 6)
 }
